@@ -281,6 +281,33 @@ def check_regroup(case):
         if not _unchanged(d, snap):
             out.viol('operand-mutated', 'listby/groupby/sort(%s) changed the table %s they were called on' % (arg, tdesc), op='listby/groupby', **sig)
 
+    # ---------------------------------------------------------------- the SAME table object regrouped again after a key cell was overwritten in place
+    if n >= 2 and not _keyeq((a[0],), (a[n - 1],)):
+        for key in (('a',), ('a', 'b')):
+            out.sub()
+            d = build()
+            sig = dict(nkeys=len(key), spelling='args')
+            try:
+                d.listby(*key), d.groupby(*key)            # first regrouping of this object
+                d['a'][n - 1] = a[0]                       # the column list is the table's own storage
+                if d['a'][n - 1] is not a[0]:
+                    continue                               # (the column handed out is a copy: nothing was edited)
+                fresh = dictable(**{k: list(v) for k, v in d.items()})
+                got = [_rows(d.listby(*key))[1], _rows(d.groupby(*key).ungroup())[1], [len(g) for g in d.groupby(*key)['grp']]]
+                want = [_rows(fresh.listby(*key))[1], _rows(fresh.groupby(*key).ungroup())[1], [len(g) for g in fresh.groupby(*key)['grp']]]
+                out.call(8)
+            except Exception as e:
+                out.viol('regroup-after-edit-raised', 'listby/groupby(%s) on %s, again after a[%d] = %s was written in place: %s: %s'
+                         % (key, tdesc, n - 1, show(a[0]), type(e).__name__, e), op='edit', **sig)
+                continue
+            for what, g, w in zip(('listby', 'groupby.ungroup', 'groupby sizes'), got, want):
+                same = (g == w) if what == 'groupby sizes' else (len(g) == len(w) and all(_row_eq(x, y) for x, y in zip(g, w)))
+                if not same:
+                    out.viol('stale-after-edit', '%s(%s) on the table %s regrouped once, then a[%d] = %s written in place: got %s, a fresh table with the same cells gives %s'
+                             % (what, key, tdesc, n - 1, show(a[0]), show(g, 300), show(w, 300)), op='edit', **sig)
+                    break
+            out.nontrivial('edit/%d' % len(key))
+
     # ---------------------------------------------------------------- listby() with no argument: by = all columns (NaN-free a, b, c)
     out.sub()
     names = ['a', 'b', 'c']
